@@ -950,8 +950,10 @@ package godi
 //@        && calltime("newScopeWithoutInitializers", 0) < calltime("provider.createAllSingletonsWithContext", 0)
 //@   ensures[C10,C15] failed_singleton_phase_cleans_up: ncalls("provider.createAllSingletonsWithContext") == 1 && callret("provider.createAllSingletonsWithContext", 0, 0) != nil ==>
 //@        result0 == nil && ncalls("provider.Close") == 1 && callarg("provider.Close", 0, 0) == built
-//@   ensures[C15] failed_singleton_phase_is_classifiable: ncalls("provider.createAllSingletonsWithContext") == 1 && callret("provider.createAllSingletonsWithContext", 0, 0) != nil && callret("provider.Close", 0, 0) == nil ==>
-//@        as(result1, "*BuildError").Cause == callret("provider.createAllSingletonsWithContext", 0, 0)
+//@   ensures[C15] failed_singleton_phase_is_classifiable: ncalls("provider.createAllSingletonsWithContext") == 1 && callret("provider.createAllSingletonsWithContext", 0, 0) != nil ==>
+//@        typeis(result1, "*BuildError") && (as(result1, "*BuildError").Cause == callret("provider.createAllSingletonsWithContext", 0, 0) || wraps(as(result1, "*BuildError").Cause, callret("provider.createAllSingletonsWithContext", 0, 0)))
+//@   ensures[C15] failed_initializer_phase_is_classifiable: ncalls("scope.runInitializers") == 1 && callret("scope.runInitializers", 0, 0) != nil ==>
+//@        typeis(result1, "*BuildError") && (as(result1, "*BuildError").Cause == callret("scope.runInitializers", 0, 0) || wraps(as(result1, "*BuildError").Cause, callret("scope.runInitializers", 0, 0)))
 //@   loop 2
 //@     invariant providers_ok: typedNilExcluded(g) && g.sortedNodesDirty
 //@     invariant frame: allDescriptors == old(sc.allDescriptors) && g != nil && wf(g) && ncalls("graph.DependencyGraph.DetectCycles") == 0
